@@ -171,6 +171,50 @@ func c17Exec(p *c17Params, prefix []int) *explore.Exec {
 						w.get(who, uint64(arg), nil)
 					case "hold":
 						w.get(who, uint64(arg), &held[ci])
+					case "fail":
+						// a constructor that fails (returns no value), like a table that cannot be opened
+						if h := w.c.Get(0, uint64(arg), func() (int, cache.Value) { return 0, nil }); h != nil {
+							v, _ := h.Value().(*cval)
+							if v == nil {
+								w.bad("%s: Get(%d) with a failing constructor returned a handle without value", who, arg)
+							} else {
+								// another client's value: a normal hit
+								if v.released > 0 && !w.forceClosed {
+									w.bad("%s: Get(%d) handed out value #%d which is already finalised", who, arg, v.id)
+								}
+								w.out[v]++
+								w.obs = append(w.obs, fmt.Sprintf("%s:fail%d=#%d", who, arg, v.id))
+								vsched.Yield()
+								w.out[v]--
+							}
+							h.Release()
+						} else {
+							w.obs = append(w.obs, fmt.Sprintf("%s:fail%d=nil", who, arg))
+						}
+					case "peek":
+						// a lookup that must not create the entry (DontFillCache reads)
+						if h := w.c.Get(0, uint64(arg), nil); h != nil {
+							v, _ := h.Value().(*cval)
+							if v == nil {
+								if !w.forceClosed {
+									w.bad("%s: get-only Get(%d) returned a handle without value", who, arg)
+								}
+							} else {
+								if v.released > 0 && !w.forceClosed {
+									w.bad("%s: get-only Get(%d) handed out value #%d which is already finalised", who, arg, v.id)
+								}
+								w.out[v]++
+								w.obs = append(w.obs, fmt.Sprintf("%s:peek%d=#%d", who, arg, v.id))
+								vsched.Yield()
+								if v.released > 0 && !w.forceClosed {
+									w.bad("%s: value #%d of key %d finalised while its handle is held", who, v.id, arg)
+								}
+								w.out[v]--
+							}
+							h.Release()
+						} else {
+							w.obs = append(w.obs, fmt.Sprintf("%s:peek%d=nil", who, arg))
+						}
 					case "del":
 						name := fmt.Sprintf("%s.%d", who, oi)
 						key := uint64(arg)
@@ -322,6 +366,11 @@ func c17Drivers() []c17Params {
 		// two goroutines release one and the same handle while a third client holds another one
 		{Name: "shared-handle-release", Capacity: 1, PreHold: []int{1}, Clients: [][]string{{"rels:0"}, {"rels:0"}, {"hold:1", "get:2"}}, QB: 3, TB: 5},
 		{Name: "shared-handle-release-nil-cacher", Capacity: -1, PreHold: []int{1}, Clients: [][]string{{"rels:0"}, {"rels:0", "get:1"}, {"hold:1"}}, QB: 3, TB: 5},
+		// a constructor that fails while a get-only lookup of the same key is in flight, then a
+		// successful fill of that key: it is finalised like any other
+		{Name: "failed-fill-vs-peek", Capacity: 2, Clients: [][]string{{"fail:1", "get:1"}, {"peek:1"}}, QB: 4, TB: 6},
+		{Name: "failed-fill-vs-peek-vs-delete", Capacity: 2, Clients: [][]string{{"fail:1", "hold:1"}, {"peek:1", "peek:1"}, {"del:1"}}, QB: 2, TB: 4},
+		{Name: "failed-fill-vs-peek-nil-cacher", Capacity: -1, Clients: [][]string{{"fail:1", "get:1"}, {"peek:1"}, {"fail:1"}}, QB: 2, TB: 4},
 		{Name: "grow-vs-ops", Capacity: 600, Preload: 511, Clients: [][]string{{"get:1"}, {"get:2", "del:1000"}, {"get:1"}}, QB: 2, TB: 3},
 		// Delete of a pinned entry while the map is being resized by the other clients' insertions
 		{Name: "grow-vs-delete-held", Capacity: 600, Preload: 511, Clients: [][]string{{"hold:1000", "del:1000"}, {"get:1"}, {"get:2"}}, QB: 2, TB: 3},
